@@ -70,7 +70,10 @@ def cases(draw, tier):
             "path_style": draw(st.sampled_from(PATH_STYLES + ["plain"])),
             "file0": draw(st.sampled_from(["present", "absent", "absent", "invalid",
                                            "present-padded"])),
-            "starts": draw(st.lists(start_op(), min_size=1, max_size=6))}
+            "starts": draw(st.lists(start_op(), min_size=1, max_size=6)),
+            # through manager_ledger.py / manager_sgx.py (command line, PIN in the environment)
+            # instead of the classes they are made of
+            "program": draw(st.integers(0, 7)) == 0}
 
 
 PATH_STYLES = ["plain", "dotdot-through-symlink", "redundant-separators"]
@@ -103,6 +106,14 @@ def single_starts(tier, seed):
         out.append({"platform": plat, "file0": file0, "path_style": style,
                     "starts": [{"force": force, "reaction": reaction, "file_fault": ff,
                                 "crash_at": crash}]})
+    for plat, file0, force, reaction in itertools.product(
+            ["Ledger", "SGX"], ["present", "absent", "invalid"], [False, True],
+            ["accept", "refuse"]):
+        out.append({"platform": plat, "file0": file0, "path_style": "plain", "program": True,
+                    "starts": [{"force": force, "reaction": reaction, "file_fault": None,
+                                "crash_at": None},
+                               {"force": False, "reaction": "accept", "file_fault": None,
+                                "crash_at": None}]})
     return out
 
 
@@ -128,7 +139,7 @@ def read_file(pf):
         return f.read()
 
 
-def run_start(w, pf, op, platform):
+def run_start(w, pf, op, platform, program=False):
     """One manager lifetime: load the PIN, bring the device up. Returns outcome details."""
     w.mode = BOOT
     w.unlocked = False
@@ -201,6 +212,15 @@ def run_start(w, pf, op, platform):
     res = {"out": None, "pin_obj": None, "events": events}
     mark = len(w.log)
     try:
+        if program:
+            # the manager program itself, started as a user starts it
+            from vlib import managers
+            argv = ["-b", "127.0.0.1", "-p", "0", "-l", os.path.join(tmpdir(), "no-log.cfg"),
+                    "-P", pf] + (["-X"] if op["force"] else [])
+            r = managers.run_manager(platform, argv, {"PIN": DEFAULT.decode()}, w)
+            res["out"] = "serve" if r["served"] else \
+                ("crash" if r["end"] == "raised:Dead" else "stopped")
+            raise _Done()
         try:
             pin = FileBasedPin(pf, DEFAULT, op["force"])
             res["pin_obj"] = pin
@@ -223,6 +243,8 @@ def run_start(w, pf, op, platform):
             if not w.dead:
                 raise
             res["out"] = "crash"      # whatever a dying process raises is irrelevant
+    except _Done:
+        pass
     finally:
         del lpin.open
         if saved_os is not None:
@@ -233,6 +255,10 @@ def run_start(w, pf, op, platform):
         res["out"] = "crash"
     res["log"] = w.log[mark:]
     return res
+
+
+class _Done(Exception):
+    pass
 
 
 def run_case(c):
@@ -255,11 +281,13 @@ def run_case(c):
             f.write(b"not a pin!")
     labels = ["platform:" + c["platform"], "file0:" + c["file0"],
               "path:" + c.get("path_style", "plain")]
+    if c.get("program"):
+        labels.append("via-manager-program")
     attempted_change = False
     for n, op in enumerate(c["starts"]):
         file_before = read_file(pf)
         dev_before = w.pin
-        res = run_start(w, pf, op, c["platform"])
+        res = run_start(w, pf, op, c["platform"], c.get("program", False))
         mw.check_sim(w)
         file_after = read_file(pf)
         dev_after = w.pin
@@ -313,7 +341,7 @@ def run_case(c):
                     where, res["pin_before"], pin.get_pin()))
         # (d) after any change attempt the manager stops instead of carrying on (at start-up
         # any exception out of the bring-up stops it)
-        if new_pins and res["out"] not in ("interrupt", "error", "crash"):
+        if new_pins and res["out"] not in ("interrupt", "error", "crash", "stopped"):
             raise Violation("manager-carried-on-after-change-attempt", where)
         if new_pins and res["out"] == "interrupt":
             after = False
@@ -562,7 +590,7 @@ def run_generator(c):
 
 REQUIRED_LABELS = {t: ["reconnect", "reconnect-change", "path:plain",
                        "path:dotdot-through-symlink", "path:redundant-separators", "gen:first-block-rejected|gen:rng-not-scripted",
-                       "gen:first-block-valid|gen:rng-not-scripted", "platform:Ledger", "platform:SGX", "file0:present", "file0:absent",
+                       "gen:first-block-valid|gen:rng-not-scripted", "platform:Ledger", "platform:SGX", "via-manager-program", "file0:present", "file0:absent",
                        "file0:invalid", "out:serve", "out:interrupt", "out:crash",
                        "out:pinerror", "change:accept", "change:refuse", "change:swerr",
                        "change:comm", "change:timeout", "known-finding-hit"]
